@@ -364,7 +364,7 @@ pub fn run_history(h: &History, cfg: &RunCfg, fault: Option<Fault>, fault2: Opti
     let state_hash = oracle::current_state_hash(wd);
     if !wd.failed() && wd.harness_errors.borrow().is_empty() {
         epilogue(wd);
-        if !wd.failed() && cfg.leak_check && !wd.degraded.get() && wd.fault_fired.get() == 0 {
+        if !wd.failed() && cfg.leak_check && !wd.is_degraded() && wd.fault_fired.get() == 0 {
             end_leak_check(wd);
         }
     }
